@@ -32,6 +32,9 @@ type P2Config struct {
 	// generations share names, lengths, slice size and the first 16 KiB, hence every file id and the recovery-set id
 	// (neither covers content past 16 KiB), but have different slice checksums and recovery data.
 	Generation int `json:"generation,omitempty"`
+	// Reused: the set is written by one Encoder object on its second load / compute / write cycle (the first cycle ran
+	// over other contents of the same files)
+	Reused bool `json:"reused,omitempty"`
 }
 
 func (c P2Config) Key() string { return fmt.Sprintf("%v", c) }
@@ -104,7 +107,30 @@ func BuildP2(cfg P2Config, seed int64) (*P2Set, error) {
 	if g <= 0 {
 		g = 1
 	}
-	err := par2.VerifCreate(fs, s.Index, s.Paths, par2.CreateOptions{SliceByteCount: cfg.Slice, NumParityShards: cfg.Blocks, NumGoroutines: g})
+	var err error
+	if cfg.Reused {
+		// the set is written by an Encoder object that has already been through a whole load / compute / write cycle over
+		// other contents of the same files (the staged API behind Create, used by a caller that keeps one Encoder)
+		for i, p := range s.Paths {
+			fs.Put(p, Content(cfg.Class, seed+4242, i, len(s.Data[i]), cfg.Slice))
+		}
+		var enc *par2.Encoder
+		enc, err = par2.VerifNewEncoder(fs, par2.DoNothingCreateDelegate{}, s.Dir, s.Paths, cfg.Slice, cfg.Blocks, g)
+		for round := 0; round < 2 && err == nil; round++ {
+			if round == 1 {
+				for i, p := range s.Paths {
+					fs.Put(p, s.Data[i])
+				}
+			}
+			if err = enc.LoadFileData(); err == nil {
+				if err = enc.ComputeParityData(); err == nil {
+					err = enc.Write(s.Index)
+				}
+			}
+		}
+	} else {
+		err = par2.VerifCreate(fs, s.Index, s.Paths, par2.CreateOptions{SliceByteCount: cfg.Slice, NumParityShards: cfg.Blocks, NumGoroutines: g})
+	}
 	if err != nil {
 		return nil, err
 	}
